@@ -353,6 +353,70 @@ fn replay_time(_args: &[String]) -> i32 {
     0
 }
 
+/// C20 probe: `poolcap` -- interning more distinct strings than two-byte references can address
+/// must be reported as an error by the public API, never as a panic.
+fn replay_poolcap(_args: &[String]) -> i32 {
+    use msi::{Column, Insert};
+    panic::set_hook(Box::new(|_| {}));
+    let r = panic::catch_unwind(|| {
+        let cursor = Cursor::new(Vec::new());
+        let mut package = Package::create(PackageType::Installer, cursor).unwrap();
+        package.create_table("T", vec![Column::build("S").primary_key().string(16)]).unwrap();
+        let mut q = Insert::into("T");
+        for i in 0..65536 {
+            q = q.row(vec![Value::Str(format!("s{i}"))]);
+        }
+        package.insert_rows(q).map(|_| ()).map_err(|e| e.to_string())
+    });
+    match r {
+        Err(_) => {
+            println!("REPLAY family=poolcap rows=65536 distinct strings verdict=VIOLATED (insert_rows PANICKED instead of returning an error)");
+            1
+        }
+        Ok(res) => {
+            println!("REPLAY family=poolcap rows=65536 distinct strings result={res:?} verdict=ok (no panic)");
+            0
+        }
+    }
+}
+
+/// C20 probe: `rowlimit` -- the reader refuses tables of more than 65536 rows, so the library must
+/// not save one: inserting 65537 rows must either be refused or read back after reopening.
+fn replay_rowlimit(_args: &[String]) -> i32 {
+    use msi::{Column, Insert, Select};
+    panic::set_hook(Box::new(|_| {}));
+    for n in [65536i32, 65537] {
+        let r = panic::catch_unwind(move || {
+            let cursor = Cursor::new(Vec::new());
+            let mut package = Package::create(PackageType::Installer, cursor).unwrap();
+            package.create_table("T", vec![Column::build("K").primary_key().int32()]).unwrap();
+            let mut q = Insert::into("T");
+            for i in 1..=n {
+                q = q.row(vec![Value::Int(i)]);
+            }
+            let inserted = package.insert_rows(q).is_ok();
+            let cursor = package.into_inner().unwrap();
+            let mut package = match Package::open(cursor) { Ok(p) => p, Err(e) => return (inserted, Err(e.to_string())) };
+            let got = package.select_rows(Select::table("T")).map(|rows| rows.len()).map_err(|e| e.to_string());
+            (inserted, got)
+        });
+        match r {
+            Err(_) => {
+                println!("REPLAY family=rowlimit rows={n} verdict=VIOLATED (panic)");
+                return 1;
+            }
+            Ok((true, Ok(k))) if k == n as usize => {}
+            Ok((false, Ok(0))) => {}
+            Ok((inserted, got)) => {
+                println!("REPLAY family=rowlimit rows={n} insert_ok={inserted} after_reopen={got:?} verdict=VIOLATED (an accepted insert does not read back)");
+                return 1;
+            }
+        }
+    }
+    println!("REPLAY family=rowlimit verdict=ok (65536 rows round-trip, 65537 are refused)");
+    0
+}
+
 fn main() {
     let args: Vec<String> = std::env::args().skip(1).collect();
     if args.is_empty() {
@@ -367,6 +431,8 @@ fn main() {
         "stream" => replay_stream(&args[1..]),
         "encode" => replay_encode(&args[1..]),
         "time" => replay_time(&args[1..]),
+        "poolcap" => replay_poolcap(&args[1..]),
+        "rowlimit" => replay_rowlimit(&args[1..]),
         _ => 2,
     };
     std::process::exit(rc);
